@@ -99,6 +99,12 @@ func cliCase(c *Case) (*Case, bool) {
 		a = []string{"updown", "list", "-r", put("ref.fasta", "ref"), "-q", put("query.fasta", "query")}
 	case "topranking":
 		qn, tn := "query.fasta", "target.fasta"
+		// both documented FASTA suffixes, chosen from the case content so that a case always maps to the same line
+		if h := caseHash(c); h%3 == 0 {
+			qn = "query.fa"
+		} else if h%3 == 1 {
+			tn = "target.fa"
+		}
 		if o.QType == "csv" {
 			qn = "query.csv"
 		}
